@@ -12,6 +12,7 @@ from ..interp import ClassVal, Raised
 from ..loader import AnalysisError, ancestors, norm, parent, walk_own
 from ..report import Rule
 from .c19 import _row_loop
+from ..rowloop import param_wiring, type_context
 
 EXPLANATION = (
     "Forward dataflow over the CFG of the row loop body with the lattice 'set of sequences of append events' "
@@ -304,35 +305,15 @@ def run(ctx):
     # ------------------------------------------------------------------ R6
     r6 = Rule("C04", "C04.R6", "parameter / appearance wiring and allowed-parameter tuples", floor=20,
               necessary="a parameter written to the wrong attribute, accepted but ignored, or consumed without being allowed")
-    triples = set()
     fns = [w2j, ctx.func("pyxform.xls2json:process_range_question_type", "C04.R6")]
-    for fn in fns:
-        for c in walk_own(fn.node):
-            if isinstance(c, ast.Call) and call_name(c) == "update" and isinstance(c.func.value, ast.Subscript) and c.args and isinstance(c.args[0], ast.Dict):
-                oks, sect = const_str(ctx, fn.module, c.func.value.slice)
-                for k, v in zip(c.args[0].keys, c.args[0].values):
-                    okk, key = const_str(ctx, fn.module, k)
-                    param = None
-                    for n in ast.walk(v):
-                        if isinstance(n, ast.Subscript) and isinstance(n.value, ast.Name) and n.value.id == "parameters":
-                            okp, param = const_str(ctx, fn.module, n.slice)
-                    if isinstance(v, ast.Name) and param is None:
-                        # value is a local derived from parameters["x"]
-                        for a in walk_own(fn.node):
-                            if isinstance(a, ast.Assign) and any(isinstance(t, ast.Name) and t.id == v.id for t in a.targets):
-                                for n in ast.walk(a.value):
-                                    if isinstance(n, ast.Subscript) and isinstance(n.value, ast.Name) and n.value.id == "parameters":
-                                        okp, param = const_str(ctx, fn.module, n.slice)
-                    if isinstance(v, ast.Constant) and key == "odk:track-changes-reasons":
-                        param = "track-changes-reasons"
-                    if oks and okk and param:
-                        ctxt = _type_context(c, loop)
-                        triples.add((ctxt, param, sect, key))
-    got = {(c, p): (s, k) for c, p, s, k in triples}
+    got, _sites = param_wiring(ctx, fns, loop)
     for (c, p), (s, k) in sorted(spec.PARAM_WIRING.items()):
         r6.check(got.get((c, p)) == (s, k), f"wiring {c}:{p}", f"parameter is written to {s}.{k}", w2j.loc(), why_fail=f"got {got.get((c, p))}")
-    extra = sorted(set(got) - set(spec.PARAM_WIRING))
-    r6.check(not extra, "wiring:extras", "no undocumented parameter wiring", w2j.loc(), why_fail=f"{extra}")
+    # wiring beyond the documented table is an additive feature unless it writes into an attribute a documented
+    # parameter owns (two parameters fighting over one attribute)
+    owned = {(c, sk): p for (c, p), sk in spec.PARAM_WIRING.items()}
+    clash = sorted((c, p, sk) for (c, p), sk in got.items() if (c, p) not in spec.PARAM_WIRING and (c, sk) in owned)
+    r6.check(not clash, "wiring:extras", "no undocumented parameter is written into an attribute owned by a documented one", w2j.loc(), why_fail=f"{clash}")
     # allowed tuples
     allowed_seen = {}
     for fn in fns:
